@@ -74,11 +74,12 @@ class FpV:
 
 
 class PtrV:
-    __slots__ = ("glob", "off")
+    __slots__ = ("glob", "off", "al")
 
-    def __init__(self, glob, off):
+    def __init__(self, glob, off, al=0):
         self.glob = glob
         self.off = off        # IntV (64 bit) byte offset
+        self.al = al          # offset is a multiple of al (0 = offset is exactly 0 so far)
 
     def __repr__(self):
         return "&%s+%r" % (self.glob, self.off)
@@ -152,7 +153,7 @@ class State:
         self.env = {}
         self.bounds = {}      # sym -> (lo, hi)   integer symbols
         self.cons = {}        # normalized key -> (lo, hi) on the normalized form (Fractions or None)
-        self.conlin = {}      # normalized key -> Lin (normalized form) for propagation
+        self.conlin = {}
         self.fb = {}          # float symbol -> (lo, hi, nan)
         self.block = None
         self.prev = None
@@ -191,11 +192,12 @@ class State:
         return s
 
     # ---------------------------------------------------------- ranges
-    def rng_raw(self, lin):
-        """rational bounds of a linear form from symbol bounds and stored constraints"""
-        lo = hi = lin.c
+    def rng_num(self, lin):
+        """bounds of the numerator of lin (integers): lo_n <= lin * lin.d <= hi_n"""
+        lo = hi = lin.cn
         b = self.bounds
-        for s, k in lin.t.items():
+        t = lin.t
+        for s, k in t.items():
             a, z = b[s]
             if k > 0:
                 lo += k * a
@@ -203,28 +205,39 @@ class State:
             else:
                 lo += k * z
                 hi += k * a
-        if len(lin.t) > 1 and self.cons:
-            nk, sc, off = lin.normalized()
+        if len(t) > 1 and self.cons:
+            nk, g, d, off = lin.normalized()
             c = self.cons.get(nk)
             if c is not None:
                 clo, chi = c
-                if sc > 0:
-                    a = None if clo is None else clo * sc + off
-                    z = None if chi is None else chi * sc + off
+                # numerator = g * nform + off
+                if g > 0:
+                    a = None if clo is None else clo * g + off
+                    z = None if chi is None else chi * g + off
                 else:
-                    a = None if chi is None else chi * sc + off
-                    z = None if clo is None else clo * sc + off
+                    a = None if chi is None else chi * g + off
+                    z = None if clo is None else clo * g + off
                 if a is not None and a > lo:
                     lo = a
                 if z is not None and z < hi:
                     hi = z
         return lo, hi
 
+    def rng_raw(self, lin):
+        """rational bounds of a linear form"""
+        lo, hi = self.rng_num(lin)
+        if lin.d == 1:
+            return lo, hi
+        return Fraction(lo, lin.d), Fraction(hi, lin.d)
+
     def rng(self, v):
         """integer range of an IntV (its value is an integer)"""
-        lo, hi = self.rng_raw(v.lin)
-        lo = cl(lo)
-        hi = fl(hi)
+        lin = v.lin
+        lo, hi = self.rng_num(lin)
+        d = lin.d
+        if d != 1:
+            lo = -((-lo) // d)
+            hi = hi // d
         if v.lo > lo:
             lo = v.lo
         if v.hi < hi:
@@ -234,61 +247,67 @@ class State:
         return lo, hi
 
     def rng_lin_int(self, lin):
-        lo, hi = self.rng_raw(lin)
-        return cl(lo), fl(hi)
+        lo, hi = self.rng_num(lin)
+        d = lin.d
+        if d != 1:
+            lo = -((-lo) // d)
+            hi = hi // d
+        return lo, hi
 
     # ---------------------------------------------------------- refinement
     def constrain(self, lin, lo, hi):
-        """require lo <= lin <= hi (None = unbounded). lin is integer valued unless coefficients say otherwise."""
+        """require lo <= lin <= hi (None = unbounded); all symbols are integers"""
         if lin.is_const():
-            if (lo is not None and lin.c < lo) or (hi is not None and lin.c > hi):
+            c = lin.c
+            if (lo is not None and c < lo) or (hi is not None and c > hi):
                 raise Infeasible()
             return
-        sg = lin.single()
-        if sg is not None:
-            s, k = sg
-            self._tighten_sym(s, k, lin.c, lo, hi)
+        d = lin.d
+        # numerator bounds:  d*lo - cn <= sum k s <= d*hi - cn
+        nlo = None if lo is None else cl(d * lo - lin.cn)
+        nhi = None if hi is None else fl(d * hi - lin.cn)
+        t = lin.t
+        if len(t) == 1:
+            for s, k in t.items():
+                self._tighten_sym(s, k, nlo, nhi)
             self._propagate()
             return
-        nk, sc, off = lin.normalized()
-        # bounds on normalized form
-        if sc > 0:
-            nlo = None if lo is None else Fraction(lo - off) / sc
-            nhi = None if hi is None else Fraction(hi - off) / sc
+        nk, g, _, _ = lin.normalized()
+        # sum k s = g * nform
+        if g > 0:
+            flo = None if nlo is None else -((-nlo) // g)
+            fhi = None if nhi is None else nhi // g
         else:
-            nlo = None if hi is None else Fraction(hi - off) / sc
-            nhi = None if lo is None else Fraction(lo - off) / sc
+            flo = None if nhi is None else -((-nhi) // g)
+            fhi = None if nlo is None else nlo // g
         old = self.cons.get(nk)
         if old is not None:
             olo, ohi = old
-            if olo is not None and (nlo is None or olo > nlo):
-                nlo = olo
-            if ohi is not None and (nhi is None or ohi < nhi):
-                nhi = ohi
-        if nlo is not None and nhi is not None and nlo > nhi:
+            if olo is not None and (flo is None or olo > flo):
+                flo = olo
+            if ohi is not None and (fhi is None or ohi < fhi):
+                fhi = ohi
+        if flo is not None and fhi is not None and flo > fhi:
             raise Infeasible()
-        self.cons[nk] = (nlo, nhi)
-        if nk not in self.conlin:
-            self.conlin[nk] = Lin(0, dict(nk))
+        self.cons[nk] = (flo, fhi)
         self._propagate()
-        # feasibility of the constrained form against the box
-        a, z = self.rng_raw(lin)
+        a, z = self.rng_num(lin)
         if a > z:
             raise Infeasible()
 
-    def _tighten_sym(self, s, k, c, lo, hi):
+    def _tighten_sym(self, s, k, lo, hi):
+        """lo <= k*s <= hi  (integers, k != 0)"""
         a, z = self.bounds[s]
-        # lo <= k*s + c <= hi
         if k > 0:
             if lo is not None:
-                a = max(a, cl(Fraction(lo - c) / k))
+                a = max(a, -((-lo) // k))
             if hi is not None:
-                z = min(z, fl(Fraction(hi - c) / k))
+                z = min(z, hi // k)
         else:
             if lo is not None:
-                z = min(z, fl(Fraction(lo - c) / k))
+                z = min(z, lo // k)
             if hi is not None:
-                a = max(a, cl(Fraction(hi - c) / k))
+                a = max(a, -((-hi) // k))
         if a > z:
             raise Infeasible()
         self.bounds[s] = (a, z)
@@ -296,42 +315,59 @@ class State:
     def _propagate(self):
         if not self.cons:
             return
+        bounds = self.bounds
         for _ in range(4):
             changed = False
-            for nk, (clo, chi) in self.cons.items():
-                items = nk
-                # interval of whole form
+            for items, (clo, chi) in self.cons.items():
+                # total interval
+                tlo = thi = 0
+                parts = []
                 for s, k in items:
-                    # rest = form - k*s
-                    rlo = rhi = 0
-                    for s2, k2 in items:
-                        if s2 == s:
-                            continue
-                        a, z = self.bounds[s2]
-                        if k2 > 0:
-                            rlo += k2 * a
-                            rhi += k2 * z
-                        else:
-                            rlo += k2 * z
-                            rhi += k2 * a
-                    a, z = self.bounds[s]
+                    a, z = bounds[s]
+                    if k > 0:
+                        plo, phi = k * a, k * z
+                    else:
+                        plo, phi = k * z, k * a
+                    parts.append((s, k, plo, phi, a, z))
+                    tlo += plo
+                    thi += phi
+                if (chi is not None and tlo > chi) or (clo is not None and thi < clo):
+                    raise Infeasible()
+                for s, k, plo, phi, a, z in parts:
+                    rlo = tlo - plo
+                    rhi = thi - phi
                     na, nz = a, z
-                    # clo <= k*s + rest <= chi  =>  (clo - rhi) <= k*s <= (chi - rlo)
+                    # clo - rhi <= k*s <= chi - rlo
                     if k > 0:
                         if clo is not None:
-                            na = max(na, cl(Fraction(clo - rhi) / k))
+                            v = -((-(clo - rhi)) // k)
+                            if v > na:
+                                na = v
                         if chi is not None:
-                            nz = min(nz, fl(Fraction(chi - rlo) / k))
+                            v = (chi - rlo) // k
+                            if v < nz:
+                                nz = v
                     else:
                         if clo is not None:
-                            nz = min(nz, fl(Fraction(clo - rhi) / k))
+                            v = (clo - rhi) // k
+                            if v < nz:
+                                nz = v
                         if chi is not None:
-                            na = max(na, cl(Fraction(chi - rlo) / k))
+                            v = -((-(chi - rlo)) // k)
+                            if v > na:
+                                na = v
                     if na > nz:
                         raise Infeasible()
                     if na != a or nz != z:
-                        self.bounds[s] = (na, nz)
+                        bounds[s] = (na, nz)
                         changed = True
+                        # keep totals consistent for the remaining symbols of this constraint
+                        if k > 0:
+                            tlo += k * (na - a)
+                            thi += k * (nz - z)
+                        else:
+                            tlo += k * (nz - z)
+                            thi += k * (na - a)
             if not changed:
                 break
 
